@@ -748,8 +748,13 @@ func (s *sender) handleRcvdSegment(seg *segment) {
 	// one it was last taken from (RFC 793 page 72, SND.WL1 / SND.WL2): an
 	// old acknowledgement that the network delivers late or twice carries
 	// an old window and must not move the right edge.
+	// A segment that acknowledges new data is newer than anything seen so
+	// far whatever its sequence number (a keep-alive probe, one below
+	// SND.NXT of the peer, may be the first to carry an acknowledgement
+	// whose original was lost): were its window skipped while SND.UNA
+	// advances, the old window would be applied to the new left edge.
 	if seg.ackNumber.InRange(s.sndUna, s.sndNxt.Add(1)) &&
-		(s.sndWl1.LessThan(seg.sequenceNumber) || (s.sndWl1 == seg.sequenceNumber && s.sndWl2.LessThanEq(seg.ackNumber))) {
+		(s.sndUna.LessThan(seg.ackNumber) || s.sndWl1.LessThan(seg.sequenceNumber) || (s.sndWl1 == seg.sequenceNumber && s.sndWl2.LessThanEq(seg.ackNumber))) {
 		if s.sndWnd == 0 && seg.window != 0 && s.sndUna == s.sndNxt {
 			// The window reopened while the persist timer was pending: the
 			// data sent below must be timed by the retransmission timeout.
@@ -757,7 +762,10 @@ func (s *sender) handleRcvdSegment(seg *segment) {
 			s.resendTimer.disable()
 		}
 		s.sndWnd = seg.window
-		s.sndWl1, s.sndWl2 = seg.sequenceNumber, seg.ackNumber
+		if s.sndWl1.LessThan(seg.sequenceNumber) {
+			s.sndWl1 = seg.sequenceNumber
+		}
+		s.sndWl2 = seg.ackNumber
 	}
 
 	// Ignore ack if it doesn't acknowledge any new data.
